@@ -35,7 +35,7 @@ def gen_case(rng: Rng, i: int, tier: str):
         fx, pw = r.pick(hist.FIXTURE_BASES)
         return {"fixture": fx, "open": r.pick(["path", "stream"]), "supply_password": True}
     arc = rsess.gen_archive(rng.sub("arc"), tier)
-    return {"archive": arc, "open": r.pick(["path", "stream"]), "supply_password": True}
+    return {"archive": arc, "open": r.pick(["path", "stream"]), "supply_password": r.chance(0.6)}
 
 
 def _built_from_fixture(fx):
@@ -77,9 +77,16 @@ def run_case(case):
         c.update(extra)
         res["violations"].append({"fp": {"oracle": oracle, "site": site, "class": c}, "detail": detail})
 
+    nopw = False
+    if not case.get("supply_password", True) and built.password is not None and built.ref is not None and built.ref.header_coders is not None \
+            and not any(rsess.RC.M_AES in hc for hc in built.ref.header_coders):
+        # header readable without the key: the listing interfaces must work and needs_password() must say so
+        nopw = True
+        built.opened_without_password = True
+    cls["without_password"] = nopw
     try:
         try:
-            sess = rsess.Session(built, case["open"], {}, mirror_dir=scratch)
+            sess = rsess.Session(built, case["open"], {}, mirror_dir=scratch, password=None if nopw else "__model__")
         except Exception as e:
             viol("open_failed", "open", "valid archive does not open: %r" % e, error=type(e).__name__)
             return res
@@ -94,6 +101,8 @@ def run_case(case):
                 viol("summary_untrue", site, text)
             # same-session extraction agrees with what was listed
             try:
+                if nopw:
+                    raise RuntimeError("no extraction without the password")
                 fac = rw.make_factory()
                 sess.z.extractall(factory=fac)
                 got = fac.result()
